@@ -151,7 +151,7 @@ def templates(rng):
   """-> (name, source, expectation) ; expectation: list of (input, 'return'|'raise')"""
   w = rng.choice([1, 2, 4, 8, 16, 33, 64])
   n = rng.randrange(3, 14)
-  t = rng.randrange(14)
+  t = rng.randrange(15)
   H = HDR.format(w=w) + FL_HDR
   if t == 0:   # monotone, convergent
     body = f"""    s.a = InPort({w}); s.b = InPort({w}); s.x = Wire({w}); s.y = Wire({w})
@@ -304,6 +304,23 @@ def templates(rng):
     @update
     def up_out(): s.o @= concat(s.x, s.y)"""
     return "gated-inverter-ring-behind-a-convergent-loop", H, body, [({"a": 0}, "return"), ({"a": 1}, "raise")]
+  if t == 14:  # a false loop through disjoint nibbles (A, B, C) with a fourth block D that an EXPLICIT constraint U(C) < U(D) pulls into
+    # the cyclic group: D (and through it A) is reached inside the group only over an edge that carries no signal
+    na, nb, nc, nd = rng.sample(["up_a", "up_b", "up_c", "up_d", "blk_w", "blk_x", "m_y", "z_q"], 4)
+    first, second = rng.choice([(nc, nd), (nb, nd), (nc, nd)])
+    body = f"""    s.a = InPort(8); s.d = Wire(8); s.x = Wire(8); s.y = Wire(8); s.o = OutPort(8)
+    @update
+    def {na}(): s.x[0:4] @= s.d[0:4]
+    @update
+    def {nb}(): s.y @= s.x
+    @update
+    def {nc}(): s.x[4:8] @= s.y[0:4]
+    @update
+    def {nd}(): s.d @= s.a + 1
+    @update
+    def up_out(): s.o @= s.x
+    s.add_constraints( U({first}) < U({second}) )"""
+    return "false-loop-with-a-block-joined-by-an-explicit-constraint", H, body, [({"a": rng.getrandbits(8)}, "return") for _ in range(3)]
   # t == 8: saturating min chain (convergent after several iterations)
   body = f"""    s.a = InPort({w}); s.x = Wire({w}); s.y = Wire({w})
     @update
